@@ -100,7 +100,8 @@ ALTERNATES = {
     "B": "B", "F": "F", "R": "R", "E": "E", "X": "X", "Z": "GHKLMNPSTUVWY",
     "_": "_", "'": "'", '"': '"', "\\": "\\", "#": "#", "(": "(", ")": ")", "[": "[", "]": "]",
     "{": "{", "}": "}", "`": "`", ",": ",", ";": ";", ":": ":", " ": " \t\r ", "\n": "\n",
-    ".": ".", "-": "-", "=": "=", "!": "!", "?": "?", "<": "<", ">": ">", "+": "+",
+    ".": ".", "-": "-", "=": "=", "!": "!", "?": "?", "<": "<", ">": ">", "+": "$%&*@^|~", "/": "/",
+    "\u2227": "\u2228\u00d7\u2264", "\t": "\r\u00a0", "\u0663": "\u00b2\u0669", "X": "X",
     "\U0001F409": "\U0001F409", "é": "ßÉβЖ中あ", "€": "§→\U0001F600\u0001٣²",
 }
 # upper / lower case variants of the literal prefix and suffix letters (same class pairs)
